@@ -1,4 +1,4 @@
-// C14, thorough tier only (opt-in, see lib/props_c14.py): coverage-guided exploration (libFuzzer + ASan + UBSan)
+// C14, thorough tier only (VERIF_C14_FUZZ=0 leaves it out, see lib/props_c14.py): coverage-guided exploration (libFuzzer + ASan + UBSan)
 // of the three framings' decoders.
 //
 // No reference here, only what must hold for every byte string: no exception, return value <= size, and for the
